@@ -78,15 +78,24 @@ fn run_tsan(tier: &str) -> Report {
     // crates synchronise with standalone memory fences, which ThreadSanitizer does not model, and
     // it reports their (correct) epoch reclamation as races now and then. Only a report that has a
     // frame of the library under test (or of the harness bodies) counts.
-    let supp = "/verif/.target/tmp/tsan.supp";
-    std::fs::create_dir_all("/verif/.target/tmp").ok();
-    std::fs::write(supp, "race:crossbeam_epoch\nrace:crossbeam_deque\nrace:rayon_core\n").ok();
-    let out = Command::new(RAYON_TSAN).arg(tier).env("C08_TSAN", "1").env("TSAN_OPTIONS", format!("halt_on_error=0 exitcode=0 report_signal_unsafe=0 suppressions={}", supp)).output();
+    // (no suppression file: a `race:` suppression matches ANY frame of a stack, and every band body
+    //  runs below rayon_core frames, so it would silence everything — verified with a deliberate
+    //  static-scratch race)
+    let out = Command::new(RAYON_TSAN).arg(tier).env("C08_TSAN", "1").env("TSAN_OPTIONS", "halt_on_error=0 exitcode=0 report_signal_unsafe=0").output();
     match out {
         Ok(o) => {
             let err = String::from_utf8_lossy(&o.stderr).to_string();
             let reports: Vec<&str> = err.split("WARNING: ThreadSanitizer").skip(1).collect();
-            let relevant: Vec<&&str> = reports.iter().filter(|r| r.contains("fast_image_resize::") || r.contains("c08rayon::") || r.contains("common::")).collect();
+            // a report counts if one of the three innermost frames of an access is library code
+            let relevant: Vec<&&str> = reports
+                .iter()
+                .filter(|r| {
+                    r.lines().any(|l| {
+                        let t = l.trim_start();
+                        (t.starts_with("#0 ") || t.starts_with("#1 ") || t.starts_with("#2 ")) && t.contains("fast_image_resize::")
+                    })
+                })
+                .collect();
             if reports.len() > relevant.len() {
                 rep.notes.insert("tsan reports inside rayon/crossbeam internals ignored (fences not modelled by TSan)".into(), (reports.len() - relevant.len()) as u64);
             }
